@@ -19,7 +19,7 @@ RULE = (
     "default appearing before an option without one"
 )
 ASSUMPTIONS = ["the function is parsed from its unparsed text", "types are restricted to what argparse can express (quantifier text)"]
-CORE_ALLOWED = ("kwargs_param", "multiline_summary", "float_default", "negative_int", "zero_int", "bool_false",
+CORE_ALLOWED = ("optional_zero", "kwargs_param", "multiline_summary", "float_default", "negative_int", "zero_int", "bool_false",
                 "prose_trailing_stop", "no_params", "str_with_space", "default_words", "prose_punct", "undocumented_param",
                 "default_without_prose", "str_with_dot", "str_with_quote", "multiline_prose", "foreign_tokens", "returns",
                 "returns_only", "nodefault_after_default", "int_literal", "single_literal", "required_bool", "none_default", "returns_default")
